@@ -88,6 +88,10 @@ def build_crate(workdir, kspecs):
             seen_mods.add((md["file"], md["name"]))
             sf = sources.src(md["file"])
             code = md["code"]
+            for lf in md.get("lift", []):
+                lsf = sources.src(lf["file"])
+                ltxt, lloc = lsf.fn_text(lf["fn"], lf.get("within"), lf.get("nth", 0))
+                code = ("    // lifted verbatim from %s:%d\n" % (lf["file"], lloc["line"])) + ltxt + "\n" + code
             txt = "\n#[cfg(kani)]\n#[allow(unused, non_snake_case, clippy::all)]\nmod %s {\n    use super::*;\n%s\n}\n" % (md["name"], code)
             per_file.setdefault(md["file"], []).append((len(sf.text), txt))
         for fn in ks.get("functions", []):
